@@ -178,6 +178,7 @@ type uniInfo struct {
 	UUpper   bool `json:"up_upper"`
 	ULower   bool `json:"up_lower"`
 	ValidRun bool `json:"valid"`
+	Fold     int  `json:"fold"`
 }
 
 func runUnitab(dec *json.Decoder, enc *json.Encoder) {
@@ -200,7 +201,7 @@ func runUnitab(dec *json.Decoder, enc *json.Encoder) {
 				CP: cp, Lower: unicode.IsLower(ru), Upper: unicode.IsUpper(ru), Number: unicode.IsNumber(ru),
 				Letter: unicode.IsLetter(ru), Digit: unicode.IsDigit(ru), ToUpper: int(up),
 				ULetter: unicode.IsLetter(up), UUpper: unicode.IsUpper(up), ULower: unicode.IsLower(up),
-				ValidRun: utf8.ValidRune(ru),
+				ValidRun: utf8.ValidRune(ru), Fold: foldMin(ru),
 			})
 		}
 
@@ -208,4 +209,16 @@ func runUnitab(dec *json.Decoder, enc *json.Encoder) {
 			panic(err)
 		}
 	}
+}
+
+// foldMin: least member of the simple-fold orbit of r (what strings.EqualFold identifies).
+func foldMin(r rune) int {
+	m := r
+	for c := unicode.SimpleFold(r); c != r; c = unicode.SimpleFold(c) {
+		if c < m {
+			m = c
+		}
+	}
+
+	return int(m)
 }
